@@ -68,6 +68,7 @@ class PgpWorld(EnvelopeWorld):
         self.fs.install_open(self.patch, self.lib)
         self.fs.install_stat(self.patch)
         self.fs.install_rename(self.patch)
+        self.fs.install_fd(self.patch)
         if header.get("real_gpg"):
             b = pgp.RealGpg.get(REPO)
             if b.ok:
